@@ -226,7 +226,7 @@ impl System for LockStep {
         match cfg.limit {
             None => {}
             Some(0) => st.model.no_scrollback = true,
-            Some(_) => panic!("lock-step configs use unlimited scrollback or limit 0"),
+            Some(_) => st.model.limited = true,
         }
         if let Some(f) = self.seed {
             let cmds = f(cfg);
